@@ -2,7 +2,7 @@
 (* Spec/Layout.v states the documented layout without reference to lcm's code; the theorems     *)
 (* say what it is; lcm's arrays are compared with it (shape and every entry) on every run.      *)
 From LCM Require Import Base.Prelude Base.Arr Spec.Lang Spec.Bellman Spec.Layout.
-From LCM Require Import Proofs.Spec_Bellman.
+From LCM Require Import Proofs.Spec_Bellman Gen.SolveBrute Proofs.C05_SolveLoop.
 Local Open Scope nat_scope.
 
 (* one array per period, in chronological order *)
@@ -48,3 +48,38 @@ Theorem C05_entry : forall m p t tab idx, in_bounds (expected_shape m p t) idx -
   = get VUndef tab (map (fun sg => ilook (state_at m p t idx) (fst sg)) (states m)).
 Proof. exact layout_entry. Qed.
 Print Assumptions C05_entry.
+
+(* ---- about the regenerated driver lcm.solve_brute.solve (Gen/SolveBrute.v) ---------------------- *)
+(* whatever the per-period components are: one array per period, and the array at index t is the one *)
+(* computed by period t's own space, grids, indexers, ccv function and emax calculator               *)
+Theorem C05_driver_returns_one_array_per_period :
+  forall (T_params T_space T_indexers T_grids T_ccv T_emax T_arr T_ccvals : Type)
+         (d_space : T_space) (d_indexers : T_indexers) (d_grids : T_grids) (d_ccv : T_ccv) (d_emax : T_emax)
+         (scp : T_space -> T_ccv -> T_grids -> option T_arr -> T_indexers -> T_params -> T_ccvals)
+         (emax : T_emax -> T_ccvals -> T_params -> T_arr)
+         params spaces indexers grids ccvs emaxs,
+  length (solve T_params T_space T_indexers T_grids T_ccv T_emax T_arr T_ccvals d_space d_indexers d_grids d_ccv d_emax
+                scp emax params spaces indexers grids ccvs emaxs) = length spaces.
+Proof. exact solve_one_array_per_period. Qed.
+Print Assumptions C05_driver_returns_one_array_per_period.
+
+Theorem C05_driver_list_is_chronological :
+  forall (T_params T_space T_indexers T_grids T_ccv T_emax T_arr T_ccvals : Type)
+         (d_space : T_space) (d_indexers : T_indexers) (d_grids : T_grids) (d_ccv : T_ccv) (d_emax : T_emax)
+         (scp : T_space -> T_ccv -> T_grids -> option T_arr -> T_indexers -> T_params -> T_ccvals)
+         (emax : T_emax -> T_ccvals -> T_params -> T_arr)
+         params spaces indexers grids ccvs emaxs d t,
+  let sol := solve T_params T_space T_indexers T_grids T_ccv T_emax T_arr T_ccvals d_space d_indexers d_grids d_ccv d_emax
+                   scp emax params spaces indexers grids ccvs emaxs in
+  t < length spaces ->
+  nth t sol d = emax (nth t emaxs d_emax)
+                     (scp (nth t spaces d_space) (nth t ccvs d_ccv) (nth t grids d_grids)
+                          (if S t =? length spaces then None else Some (nth (S t) sol d))
+                          (nth t indexers d_indexers) params) params.
+Proof. exact solve_is_backward_induction. Qed.
+Print Assumptions C05_driver_list_is_chronological.
+
+(* the state-choice map of the regenerated solve_continuous_problem puts the sparse axis first *)
+Theorem C05_driver_maps_sparse_variables_first : scp_put_dense_first = false.
+Proof. reflexivity. Qed.
+Print Assumptions C05_driver_maps_sparse_variables_first.
